@@ -86,6 +86,7 @@ def run(ctx):
     recs = sc.run_games(ctx, games, limit=10, tag="c02")
     sc.correspondence(ctx, recs, "cmp_rewards", "c02")
     sc.padding_check(ctx, recs, ("rewards",), 40 if ctx.quick else 400, "c02")
+    sc.loglevel_check(ctx, recs, ("rewards",), 25 if ctx.quick else 250, "c02")
     check(ctx, recs)
     known_k1(ctx)
 
